@@ -35,12 +35,27 @@ def run(rep, tier, prop="C01", extra_kinds=()):
     rep.rule(P + ".5", "array values are hoisted into declarations whose header and rows are in the language of arrayvar for the array's own dtype, one fresh declaration per array value, inserted before the statements", floor=10)
     if res:
         common.guarded(rep, P + ".5", tser.arrays, rep, P + ".5", ix, M, res[0])
-    from . import c05
+    from . import c05, c02
     c05.aliasing_lint(rep, ix)          # row-major traversal only, no aliased rows
+    common.guarded(rep, P + ".7", c02.c02_7, rep, ix, M, P + ".7")       # reader side of the str / bool forms
     # tdm programs: predicate agreement and variable section (shared with C15)
     from . import c15
     common.guarded(rep, "C15.1", c15.c15_1, rep, ix)
     common.guarded(rep, "C15.4", tser.c15_4, rep, ix, M)
+    rep.rule(P + ".8", "symbolic values are printed with the grammar's precedences: the grammar binds a unary sign tighter than ** (it reads -a**2 as (-a)**2), SymPy's default printer writes "
+                       "-a**2 for -(a**2); so either the printer is adapted or the grammar agrees", floor=1)
+    from ..gram import model as gm2
+    _, _, table = gm2.left_recursive_rewrite(M.G.R["expression"])
+    by = {t["label"]: t for t in table}
+    grammar_sign_tighter = "SignLabel" in by and "PowerLabel" in by and by["SignLabel"]["prec"] > by["PowerLabel"]["prec"]
+    import ast as _ast
+    for q_, what in (("program.sympy_to_blackbird", "template-parameter expressions"), ("listener.RegRefTransform.__init__", "register-transform expressions")):
+        fq = ix.func(q_)
+        txt = _ast.unparse(fq.node)
+        adapted = any(k in txt for k in ("_print_Mul", "_print_Pow", "'-1*'", '"-1*"', "StrPrinter", "precedence"))
+        rep.check((not grammar_sign_tighter) or adapted, P + ".8", ix.site(fq), "%s are printed so that a leading minus in front of a power re-parses as written" % what,
+                  "str(expr) gives '-a**2' for -(a**2); the grammar (sign precedence %s > power precedence %s) re-parses it as (-a)**2" % (
+                      by.get("SignLabel", {}).get("prec"), by.get("PowerLabel", {}).get("prec")), key=q_ + "|unary minus before power")
     # RegRefTransform prints its expression
     import ast
     from ..py.index import u
